@@ -36,7 +36,7 @@ RULE = ("fault space = every executed statement (LINE event) of NP2Converter.* a
 ASSUMPTIONS = ["crash = Python-level interruption at a statement boundary, or os._exit of the process; loss of unsynced page cache is not modelled",
                "stale but valid files of an earlier run (e.g. an old lf.cbin beside a fresh lf.bin) are not a violation: the property asks for a complete, valid set",
                "after the original has been deleted by a verified run the history ends (there is no input left to hand to the converter)"]
-REQUIRED = {"crash_points_fired": 40, "distinct_crash_sites": 30, "history_steps": 60, "remove_original_judged": 3, "idempotence_checked": 8,
+REQUIRED = {"reused_converter_runs": 12, "crash_points_fired": 40, "distinct_crash_sites": 30, "history_steps": 60, "remove_original_judged": 3, "idempotence_checked": 8,
             "completeness_checked": 20, "recoverability_checked": 100}
 CASE_TIMEOUT = 60.0
 MAX_PROCS = 14
@@ -187,8 +187,29 @@ def install_spies():
     C.check_NP24 = check_NP24
 
 
-def step(res, root, rec, opts, overwrite, label, crash_at=None, fp=None):
-    """returns dict(status=..., exc=..., crashed=bool, removed_original=bool)"""
+def close_conv(conv):
+    try:
+        conv.sr.close()
+    except Exception:
+        pass
+    for sh in getattr(conv, "shank_info", {}).values():
+        for k in ("ap_open_file", "lf_open_file"):
+            if k in sh:
+                try:
+                    sh[k].close()
+                except Exception:
+                    pass
+        if "sr" in sh:
+            try:
+                sh["sr"].close()
+            except Exception:
+                pass
+
+
+def step(res, root, rec, opts, overwrite, label, crash_at=None, fp=None, holder=None):
+    """returns dict(status=..., exc=..., crashed=bool, removed_original=bool)
+    holder: a dict shared by the steps of one history; the converter object of the first step is kept there and used again
+    (one NP2Converter instance, several process() calls) instead of instantiating a converter per run"""
     import neuropixel
     install_spies()
     b, c = orig_paths(root)
@@ -217,8 +238,14 @@ def step(res, root, rec, opts, overwrite, label, crash_at=None, fp=None):
             judged.append((ev[2], other_ok, verified))
     conv = None
     try:
-        conv = neuropixel.NP2Converter(path, post_check=opts["post_check"], delete_original=opts["delete_original"], compress=opts["compress"])
-        conv.init_params(nwindow=WINDOW)
+        if holder is not None and holder.get("conv") is not None:
+            conv = holder["conv"]
+            res.count("reused_converter_runs")
+        else:
+            conv = neuropixel.NP2Converter(path, post_check=opts["post_check"], delete_original=opts["delete_original"], compress=opts["compress"])
+            conv.init_params(nwindow=WINDOW)
+            if holder is not None:
+                holder["conv"] = conv
         STATE["conv"] = conv
         log.arm(root, [on_event])
         if fp is not None:
@@ -234,23 +261,8 @@ def step(res, root, rec, opts, overwrite, label, crash_at=None, fp=None):
         out["tb"] = traceback.format_exc()[-900:]
     finally:
         log.disarm()
-        if conv is not None:
-            try:
-                conv.sr.close()
-            except Exception:
-                pass
-            for sh in getattr(conv, "shank_info", {}).values():
-                for k in ("ap_open_file", "lf_open_file"):
-                    if k in sh:
-                        try:
-                            sh[k].close()
-                        except Exception:
-                            pass
-                if "sr" in sh:
-                    try:
-                        sh["sr"].close()
-                    except Exception:
-                        pass
+        if conv is not None and holder is None:
+            close_conv(conv)
     for p, other_ok, verified in judged:
         res.count("remove_original_judged")
         res.check(other_ok, "delete:original-removed-while-not-recoverable", f"{label}: os.remove({Path(p).name}) issued while the recording was not recoverable from the other files")
@@ -288,6 +300,10 @@ def judge_step(res, root, rec, opts, overwrite, r, label, prior_complete, snap_b
             res.check(original_ok(root, rec), "delete:unrequested", f"{label}: the original disappeared although deletion was not requested/verified")
         return True
     res.check(r["status"] == 0, "process:status", f"{label}: process returned {r['status']}")
+    if overwrite:
+        # a forced re-run ends with a complete, valid set of files whether or not earlier output exists - whatever status it reports
+        res.check(False, "overwrite:status", f"{label}: forced re-run returned {r['status']}, expected 1 (conversion done)")
+        complete(res, root, rec, label + " (forced re-run)", opts)
     return prior_complete
 
 
@@ -327,6 +343,18 @@ def gen_cases(seed, tier):
                 for last in ("rerun", "overwrite"):
                     cases.append({"cls": "history", "kind": kind, "opts": c1 | 1, "opts_seq": [c1 | 1, c2 | 1, c1 | 1], "steps": ["run", last, "rerun"],
                                   "cbin": bool(rng.integers(0, 2)), "change_opts": False, "seed": seed * 10000 + 5000 + len(cases), "_w": 4})
+    # one converter object used for several process() calls (options are fixed at instantiation)
+    reuse = [(kind, o, steps) for kind in ("NP2.4", "NP2.4r", "NP2.1") for o in range(8)
+             for steps in (("run", "rerun", "overwrite"), ("run", "overwrite", "rerun"), ("overwrite", "rerun", "overwrite", "rerun"), ("run", "rerun", "rerun"))]
+    if tier == "quick":
+        core = [i for i, h in enumerate(reuse) if h[0] == "NP2.4" and h[2] == ("run", "rerun", "overwrite") and h[1] in (0, 1, 2, 3)]
+        rsel = sorted(set(core) | set(rng.choice(len(reuse), 8, replace=False).tolist()))
+    else:
+        rsel = range(len(reuse))
+    for i in rsel:
+        kind, o, steps = reuse[i]
+        cases.append({"cls": "history", "kind": kind, "opts": o, "steps": list(steps), "cbin": bool(rng.integers(0, 2)), "change_opts": False, "reuse": True,
+                      "seed": seed * 10000 + 7000 + i, "_w": 1.5 * len(steps)})
     # ---- crash points: one case = one (kind, options) trace, split in slices of crash indices
     combos = [("NP2.4", 7), ("NP2.4", 3), ("NP2.4", 2), ("NP2.1", 2), ("NP2.4r", 5), ("NP2.1", 0), ("NP2.4", 0)]
     nsl = 14 if tier == "quick" else 56
@@ -402,6 +430,7 @@ def run_case(case):
             return res
         rec = make_original(rng, root, kind, case["cbin"])
         prior = False
+        holder = {} if case.get("reuse") else None
         for si, what in enumerate(case["steps"]):
             if "opts_seq" in case:
                 opts = opts_of(case["opts_seq"][si])
@@ -410,13 +439,15 @@ def run_case(case):
             overwrite = what == "overwrite"
             label = f"{kind} {'cbin' if case['cbin'] else 'bin'} history={case['steps']} step {si}:{what} opts={ {k: int(v) for k, v in opts.items()} }"
             snap = M.snapshot(root)
-            r = step(res, root, rec, opts, overwrite, label)
+            r = step(res, root, rec, opts, overwrite, label + (" (same converter object)" if holder is not None else ""), holder=holder)
             if r["exc"] == "no-original":
                 break
             prior = judge_step(res, root, rec, opts, overwrite, r, label, prior, snap)
             if r["deleted"]:
                 break
-        res.sig = f"history-{kind}-{case['opts']}-{case['steps']}-{case['cbin']}-{case['change_opts']}"
+        if holder and holder.get("conv") is not None:
+            close_conv(holder["conv"])
+        res.sig = f"history-{kind}-{case['opts']}-{case['steps']}-{case['cbin']}-{case['change_opts']}-{bool(case.get('reuse'))}"
         res.nontrivial = len(case["steps"]) >= 2
         return res
     if cls == "crash":
